@@ -3,7 +3,7 @@
    field is COMPUTED from the bytes of the value it governs; `encode = layout` therefore says that
    each emitted length field delimits exactly its value, with the standard's widths, order and type
    codes.  fixed_lens asks the two fixed-size sub-items to announce their fixed size 4. *)
-From PND Require Import Lib.Base Model.Pdu Model.PduWf Spec.Ps38Layout Proofs.PduProofs Proofs.LayoutProofs.
+From PND Require Import Lib.Base Model.Pdu Model.PduWf Spec.Ps38Layout Proofs.PduProofs Proofs.LayoutProofs Proofs.ParseProofs.
 
 Theorem C02_emitted : forall p : pdu, wf_pdu p = true -> fixed_lens p = true ->
   encode p = layout p /\ total_length p = lenN (encode p).
@@ -11,6 +11,14 @@ Proof.
   intros p Hwf Hfix. split; [exact (encode_layout p Hwf Hfix)|exact (total_length_bytes p Hwf Hfix)].
 Qed.
 Print Assumptions C02_emitted.
+
+(* read strictly by the byte layouts — `parse` is a length-driven parser in which every length field
+   delimits exactly the bytes it governs, a value must be consumed completely and nothing may follow
+   the PDU — every emitted PDU yields exactly the field values of the PDU that was encoded *)
+Theorem C02_read_strictly : forall p : pdu, wf_pdu p = true -> fixed_lens p = true ->
+  parse (encode p) = Some p.
+Proof. exact parse_encode. Qed.
+Print Assumptions C02_read_strictly.
 
 (* conversely: every standard-conformant encoding — the layout of ANY well-formed value, whatever the
    order of its sub-items, with unknown sub-item types, several transfer syntaxes, several PDVs —
